@@ -194,6 +194,31 @@ def check_user(case):
                 v("user-alphabet-application", "user alphabet %s with alphabetSize=7: got %s" % (name, r2), ua=name)
         except Exception:  # noqa
             acc_dc = True  # noqa  (whether an invalid size is looked at together with a user alphabet is unspecified)
+        # the same mapping with its keys inserted in other orders (a dict is a mapping: insertion order carries no meaning),
+        # and with additional non-amino-acid keys (whether those are accepted is not specified; if accepted, the 20 must be applied)
+        orders = {"reversed": list(reversed(T.AA)), "grouped-by-target": sorted(T.AA, key=lambda a: (ua[a], a)),
+                  "rotated": list(T.AA[7:]) + list(T.AA[:7]), "interleaved": list(T.AA[::2]) + list(T.AA[1::2]),
+                  "hydrophobic-first": list("LVIMCAGSTPFYWEDNQKRH")}
+        for oname, order in orders.items():
+            for extra in ((), (("X", "A"), ("b", "L"), ("*", "K"))):
+                d = {}
+                for kx, vx in extra[:1]:
+                    d[kx] = vx
+                for a in order:
+                    d[a] = ua[a]
+                for kx, vx in extra[1:]:
+                    d[kx] = vx
+                calls += 1
+                try:
+                    r, alph = red(seq, userAlphabet=d)
+                except Exception as e:  # noqa
+                    if not extra:
+                        v("valid-user-alphabet-rejected", "user alphabet %s with keys inserted in %s order raised %r" % (name, oname, e),
+                          ua=name, order=oname)
+                    continue
+                if r != exp or sorted(alph) != sorted(set(ua.values())):
+                    v("user-alphabet-application", "user alphabet %s with keys inserted in %s order%s: got %s %r, expected %s"
+                      % (name, oname, " and extra keys" if extra else "", r, alph, exp), ua=name, order=oname, extra=bool(extra))
         # every single fault
         for a in T.AA:
             faults = []
@@ -204,6 +229,16 @@ def check_user(case):
                 d = dict(ua)
                 d[a] = bad
                 faults.append((badname, d))
+            # the invalid target is itself a key of the dictionary (an extra, non-amino-acid key)
+            for badname, bad in (("X-also-a-key", "X"), ("lower-also-a-key", a.lower()), ("star-also-a-key", "*")):
+                d = dict(ua)
+                d[a] = bad
+                d[bad] = bad
+                faults.append((badname, d))
+                d = dict(ua)
+                d[a] = bad
+                d[bad] = "A"
+                faults.append((badname + "->A", d))
             for fname, d in faults:
                 calls += 1
                 try:
@@ -291,7 +326,9 @@ def run(tier, seed, t0):
              "residue's own group, one representative per group, exactly `size` of them, returned alphabet = representatives); "
              "sizes -1..26 and 6 non-integers (exactly the 12 accepted); length / concatenation / idempotence laws on %d word pairs "
              "x 12 sizes; 4 valid user alphabets applied residue by residue, each with every single fault (20 keys x {missing, "
-             "lower case, X, empty, int, two letters, None}) and 6 non-dict arguments rejected; dont-care: extra keys, empty "
+             "lower case, X, empty, int, two letters, None, and X / lower case / * that are ALSO keys of the dictionary}) and 6 non-dict arguments rejected; "
+             "each valid alphabet also with its keys inserted in 5 other orders, with and without extra non-amino-acid keys (same result); "
+             "dont-care: whether extra keys with valid targets are accepted, empty "
              "containers; non-trivial = all but single-letter law cases" % len(pairs),
         bounds={"law_pairs": len(pairs), "sizes": list(T.SIZES)},
         assumptions=["partition table pinned from the docstring in vmc/refmodel/tables.py:REDUCED"])
